@@ -3,7 +3,7 @@ Helper lemmas for `Properties/C10.lean`: the tree invariant `Consistent` holds f
 is preserved by `createType` / `addFeature` / `createFeature`, and under it the hierarchy queries
 (`descendants`, `subsumes`, `isInstanceOf`) agree with the ancestor relation `Anc`.
 -/
-import CassisModel.Spec.TypeSystem
+import CassisModel.Spec.BuiltinChecks
 
 namespace Cassis.TS
 
@@ -1036,9 +1036,6 @@ theorem builtins_replay_aux : Gen.replay Gen.consts Gen.builtinScript = some Gen
 
 /-! ### A Boolean checker for `Consistent` on concrete tables -/
 
-def nodupB : List String → Bool
-  | [] => true
-  | a :: l => !(l.contains a) && nodupB l
 
 theorem nodupB_sound : ∀ l, nodupB l = true → l.Nodup := by
   intro l
@@ -1050,29 +1047,7 @@ theorem nodupB_sound : ∀ l, nodupB l = true → l.Nodup := by
       decide_eq_false_iff_not] at h
     exact List.nodup_cons.mpr ⟨h.1, ih h.2⟩
 
-def consistentB (ts : TypeSystem) : Bool :=
-  nodupB (ts.types.map (·.name)) &&
-  (match find? ts TOP with
-    | some t => t.super.isNone
-    | none => false) &&
-  (ts.types.all fun t => t.super.isSome || t.name == TOP) &&
-  (ts.types.all fun t => match t.super with
-    | none => true
-    | some s => hasExact ts s) &&
-  (ts.types.all fun ta => ta.children.all fun b => match find? ts b with
-    | some tb => tb.super == some ta.name
-    | none => false) &&
-  (ts.types.all fun tb => match tb.super with
-    | none => true
-    | some a => match find? ts a with
-      | some ta => ta.children.contains tb.name
-      | none => false) &&
-  (ts.types.all fun t => nodupB t.children) &&
-  ((List.range ts.types.length).all fun i => match ts.types[i]? with
-    | none => true
-    | some t => match t.super with
-      | none => true
-      | some s => (ts.types.take i).any (·.name == s))
+
 
 theorem consistentB_sound (ts : TypeSystem) (h : consistentB ts = true) : Consistent ts := by
   simp only [consistentB, Bool.and_eq_true] at h
